@@ -534,7 +534,7 @@ _EQ_CACHE = {}
 
 def equipment_variant(v):
     """eqpt_config_multiband.json, variant 0 as shipped; others move band edges of some amplifier models
-    (1, 2: by whole slots, 3: off the 6.25 GHz grid)"""
+    (1, 2: by whole slots, 3: off the 6.25 GHz grid, 4: edges of different models coincide)"""
     if v in _EQ_CACHE:
         return _EQ_CACHE[v]
     import gnpy
@@ -547,6 +547,9 @@ def equipment_variant(v):
             'std_low_gain_bis': (-4 * GRID, 0), 'std_medium_gain_L': (0, 12 * GRID)},
         2: {'std_low_gain': (0, -80 * GRID), 'std_low_gain_L': (16 * GRID, 0), 'std_medium_gain_C': (-8 * GRID, 8 * GRID),
             'std_low_gain_L_ter': (0, -8 * GRID)},
+        # 4: band edges coincide pairwise: same f_min / different f_max, same f_max / different f_min, identical
+        4: {'std_low_gain_reduced_band': (-160 * GRID, -120 * GRID), 'std_medium_gain_C': (4 * GRID, -36 * GRID),
+            'std_medium_gain_L': (8 * GRID, -96 * GRID)},
         3: {'std_low_gain_reduced_band': (1000000000, -2000000000), 'std_low_gain_L_reduced_band': (3000000000, 1000000000),
             'std_medium_gain_C': (-1000000000, 500000000), 'std_low_gain_L_ter': (2500000000, -1500000000)},
     }[v]
@@ -558,10 +561,11 @@ def equipment_variant(v):
     return _EQ_CACHE[v]
 
 
-def amp_el(rng, uid, mode):
+def amp_el(rng, uid, mode, pal=None):
+    pal = pal or {'C': C_AMPS, 'L': L_AMPS, 'CL': MB_AMPS}
     if mode == 'CL':
-        return {'uid': uid, 'type': 'Multiband_amplifier', 'type_variety': rng.choice(MB_AMPS)}
-    tv = rng.choice(C_AMPS if mode == 'C' else L_AMPS)
+        return {'uid': uid, 'type': 'Multiband_amplifier', 'type_variety': rng.choice(pal['CL'])}
+    tv = rng.choice(pal[mode])
     return {'uid': uid, 'type': 'Edfa', 'type_variety': tv,
             'operational': {'gain_target': None, 'delta_p': None, 'tilt_target': 0, 'out_voa': None}}
 
@@ -580,6 +584,13 @@ def gen_net(rng, tricky=False):
         a, b = rng.sample(names, 2)
         edges.add(tuple(sorted((a, b))))
     multi_default = rng.random() < 0.5       # network-wide flavour of ROADM design bands
+    # half of the networks use a small palette of amplifier models (those with an explicit band), so that the range
+    # of the network hangs on few models and on the order in which their elements are listed
+    pal = None
+    if rng.random() < 0.5:
+        pal = {'C': rng.sample(['std_low_gain', 'std_low_gain_bis', 'std_medium_gain_C', 'std_low_gain_reduced_band'],
+                               rng.choice([1, 2, 2])),
+               'L': rng.sample(L_AMPS, rng.choice([1, 2, 2])), 'CL': rng.sample(MB_AMPS, rng.choice([1, 2]))}
     els, cx = [], []
     rb = {}
     for x in names:
@@ -624,7 +635,7 @@ def gen_net(rng, tricky=False):
             prev = f'roadm {s}'
 
             def put(uid, prev):
-                els.append(amp_el(rng, uid, mode))
+                els.append(amp_el(rng, uid, mode, pal))
                 cx.append((prev, uid))
                 return uid
             if explicit and not preamp_only and (full or rng.random() < 0.5):
@@ -662,7 +673,7 @@ def gen_net(rng, tricky=False):
         rng.shuffle(els)
     if rng.random() < 0.5:
         rng.shuffle(cx)
-    return {'kind': 'net', 'eq': rng.choice([0, 0, 1, 2]), 'tricky': tricky, 'modes': modes,
+    return {'kind': 'net', 'eq': rng.choice([0, 0, 1, 2, 4, 4]), 'tricky': tricky, 'modes': modes,
             'topo': {'elements': els, 'connections': [{'from_node': a, 'to_node': b} for a, b in cx]}}
 
 
@@ -794,10 +805,39 @@ RAW_BANDS = {'C': [[191300000000000, 196100000000000]], 'Cn': [[192000000000000,
                                                                 [186100000000000, 190000000000000]]}
 
 
+def gen_band_family(rng):
+    """amplifier models whose band edges coincide pairwise: same f_min / different f_max, same f_max / different
+    f_min, identical, nested, touching; plus two-band models.  Returns ({model: bands}, SI band inside the core)"""
+    a, b = rng.randint(-320, -120), rng.randint(120, 480)
+    k1, k2, k3, k4 = (rng.randint(1, 50) for _ in range(4))
+    m = rng.randint(-40, 40)
+    f = lambda n: REF + n * GRID      # noqa: E731
+    la, lb = a - rng.randint(400, 700), a - rng.randint(40, 120)
+    pool = {
+        'base': [[f(a), f(b)]], 'same': [[f(a), f(b)]],
+        'lo_eq': [[f(a), f(b - k1)]], 'lo_eq2': [[f(a), f(b - k1 - k2)]],
+        'hi_eq': [[f(a + k3), f(b)]], 'nested': [[f(a + k3), f(b - k4)]],
+        'left': [[f(a), f(m)]], 'right': [[f(m), f(b)]],
+        'two': [[f(a), f(b - k1)], [f(la), f(lb)]], 'two_b': [[f(la), f(lb - k2)], [f(a + k3), f(b)]],
+        'low': [[f(la), f(lb)]],
+    }
+    names = rng.sample(sorted(pool), rng.choice([2, 2, 3, 4]))
+    if rng.random() < 0.5:
+        # the classic shape: models that agree on one edge only
+        names = rng.choice([['base', 'lo_eq'], ['lo_eq', 'lo_eq2'], ['base', 'hi_eq'], ['lo_eq', 'hi_eq', 'nested'],
+                            ['base', 'same', 'nested'], ['two', 'lo_eq2']])
+    return {n: pool[n] for n in names}, [f(a + 60), f(b - 60)]
+
+
 def gen_raw(rng, malformed=False):
     """a network given directly as a graph of stand-in elements (no design): ROADMs, transceivers on ROADMs, lines of
     amplifiers / passive elements; malformed: back edges, dead ends, shared elements, transceivers on lines ..."""
     nr = rng.choice([2, 2, 3, 4])
+    if rng.random() < 0.3:
+        bands, si = {k: [list(b) for b in v] for k, v in RAW_BANDS.items()}, [191350000000000, 196050000000000]
+    else:
+        bands, si = gen_band_family(rng)
+    keys = sorted(bands)
     nodes, edges = [], []          # nodes: [uid, kind, band key]; edges in insertion order
     for r in range(nr):
         nodes.append([f'R{r}', 0, None])
@@ -816,11 +856,11 @@ def gen_raw(rng, malformed=False):
         pairs.append((0, 0))                         # a loop line
     for k, (a, b) in enumerate(pairs):
         n = rng.choice([0, 1, 2, 2, 3, 4]) if (a != b) else rng.choice([2, 3])
-        mode = rng.choice(['C', 'C', 'L', 'CL', 'Cn', 'none'])
+        mode = rng.choice(keys + keys + ['none'])
         chain = []
         for i in range(n):
             if mode != 'none' and rng.random() < 0.6:
-                bk = mode if rng.random() < 0.8 else rng.choice(['C', 'Cn', 'L', 'CL'])
+                bk = mode if rng.random() < 0.8 else rng.choice(keys)
                 nodes.append([f'a{k}_{i}', 2, bk])
             else:
                 nodes.append([f'f{k}_{i}', 3, None])
@@ -836,7 +876,7 @@ def gen_raw(rng, malformed=False):
             else:
                 edges.append(fwd)
     if not any(n[1] == 2 for n in nodes) and not malformed:
-        nodes.append(['a_x', 2, 'C'])
+        nodes.append(['a_x', 2, keys[0]])
         edges += [('R0', 'a_x'), ('a_x', 'R1')]
     if malformed:
         k = rng.random()
@@ -853,10 +893,10 @@ def gen_raw(rng, malformed=False):
         elif k < 0.55 and line_nodes:
             a = rng.choice(line_nodes)
             edges.append((a, a))
-    if rng.random() < 0.5:
-        rng.shuffle(nodes)
+    if rng.random() < 0.7:
+        rng.shuffle(nodes)                           # the order in which elements are listed is free
     return {'kind': 'raw', 'malformed': malformed, 'nodes': nodes, 'edges': [list(e) for e in edges],
-            'si': [191350000000000, 196050000000000]}
+            'bands': bands, 'si': si}
 
 
 def drive_raw(case):
@@ -864,12 +904,13 @@ def drive_raw(case):
     from gnpy.core.elements import Roadm, Transceiver, Edfa, Multiband_amplifier, Fused
     g = DiGraph()
     objs = {}
+    fam = case.get('bands', RAW_BANDS)
     for uid, kind, bk in case['nodes']:
-        cls = [Roadm, Transceiver, None, Fused][kind] if kind != 2 else (Edfa if len(RAW_BANDS[bk]) == 1 else Multiband_amplifier)
+        cls = [Roadm, Transceiver, None, Fused][kind] if kind != 2 else (Edfa if len(fam[bk]) == 1 else Multiband_amplifier)
         e = cls.__new__(cls)
         e.uid = uid
         if kind == 2:
-            e.params = NS(bands=[{'f_min': float(a), 'f_max': float(b)} for a, b in RAW_BANDS[bk]])
+            e.params = NS(bands=[{'f_min': float(a), 'f_max': float(b)} for a, b in fam[bk]])
         objs[uid] = e
         g.add_node(e)
     for a, b in case['edges']:
